@@ -233,7 +233,15 @@ def enc_ast(node, out: list):
         enc_ast(node.body, out)
         enc_ast(node.orelse, out)
     else:
-        kids = [c for c in ast.iter_child_nodes(node) if isinstance(c, ast.expr)]
+        kids = []
+
+        def collect(n):     # nearest expression descendants (through comprehension / arguments / keyword nodes)
+            for c in ast.iter_child_nodes(n):
+                if isinstance(c, ast.expr):
+                    kids.append(c)
+                else:
+                    collect(c)
+        collect(node)
         out.append(f"o{t}:{len(kids)}")
         for k in kids:
             enc_ast(k, out)
@@ -293,6 +301,72 @@ def pyev_line(src: str) -> str:
     return " ".join(["pyev", hexs(src)] + parse_tokens(src))
 
 
+def dg_line(src: str) -> str:
+    """legacy entry point digest_glucose on a tracer-world text (values always render as text)"""
+    return " ".join(["dg", "1" if print_raises(src) else "0", str(len(src)), hexs(src), hexs(src.lower().strip()),
+                     "none"] + parse_tokens(src))
+
+
+def cdg_line(src: str, str_raises: bool) -> str:
+    """digest_glucose on a concrete text; str_raises: rendering the value as text raises (int of > 4300 digits)"""
+    return f"cdg {int(str_raises)} {hexs(src)}"
+
+
+def tool_line(name: str, caps=(), ver: int = 0, exc: str | None = None) -> str:
+    beh = f"x{ver}:{exc}" if exc else f"s{ver}"
+    return f"tool {hexs(name)} {hexs(name.lower())} {','.join(caps) or '-'} {beh}"
+
+
+EXC_KINDS = ["nodoc_empty", "emptydoc_empty", "blankdoc_empty", "doc_empty", "nodoc_msg", "nonstr_msg", "none_msg",
+             "multi_args", "memoryerror_bare", "keyerror_bare", "keyerror_msg", "stopiteration", "oserror_bare",
+             "assertion_bare", "doc_nonstr", "surrogate_msg", "zerodiv", "recursion", "unicode_error", "subclass_chain",
+             "str_raises", "str_nonstr", "repr_raises"]
+
+
+def make_exception(kind: str) -> BaseException:
+    class NoDoc(Exception):
+        pass
+
+    class EmptyDoc(Exception):
+        ""
+
+    class BlankDoc(Exception):
+        """   
+        """
+
+    class WithDoc(Exception):
+        """A documented failure."""
+
+    class DocNonStr(Exception):
+        __doc__ = 42
+
+    class Deep(NoDoc):
+        pass
+
+    class StrRaises(Exception):
+        def __str__(self):
+            raise RuntimeError("no text")
+
+    class StrNonStr(Exception):
+        def __str__(self):
+            return 42
+
+    class ReprRaises(Exception):
+        def __repr__(self):
+            raise RuntimeError("no repr")
+    return {
+        "str_raises": lambda: StrRaises(), "str_nonstr": lambda: StrNonStr(), "repr_raises": lambda: ReprRaises("x"),
+        "nodoc_empty": lambda: NoDoc(), "emptydoc_empty": lambda: EmptyDoc(), "blankdoc_empty": lambda: BlankDoc(),
+        "doc_empty": lambda: WithDoc(), "nodoc_msg": lambda: NoDoc("boom"), "nonstr_msg": lambda: NoDoc(42),
+        "none_msg": lambda: EmptyDoc(None), "multi_args": lambda: NoDoc(b"x", 3, None),
+        "memoryerror_bare": lambda: MemoryError(), "keyerror_bare": lambda: KeyError(), "keyerror_msg": lambda: KeyError("k"),
+        "stopiteration": lambda: StopIteration(), "oserror_bare": lambda: OSError(), "assertion_bare": lambda: AssertionError(),
+        "doc_nonstr": lambda: DocNonStr(), "surrogate_msg": lambda: NoDoc("\ud800"), "zerodiv": lambda: ZeroDivisionError(),
+        "recursion": lambda: RecursionError(), "unicode_error": lambda: UnicodeDecodeError("utf-8", b"\xff", 0, 1, "bad"),
+        "subclass_chain": lambda: Deep(),
+    }[kind]()
+
+
 def pyevl_line(src: str) -> str:
     return " ".join(["pyevl", hexs(src)] + parse_tokens(src))
 
@@ -317,7 +391,8 @@ def cfg_line(facts, seed, silent=True, ros=(1, 1), tz=False, allowed=None) -> st
     al = "none" if allowed is None else (",".join(allowed) or "-")
     ml = facts.get("max_len")
     return (f"cfg {seed} {int(silent)} {ros[0]} {ros[1]} {int(tz)} {int(bool(facts.get('print_in_try')))} "
-            f"{int(bool(facts.get('dispatch_in_try')))} {ml if ml is not None else 0} {al}")
+            f"{int(bool(facts.get('dispatch_in_try')))} {ml if ml is not None else 0} {al} "
+            f"{int(bool(facts.get('str_guarded')))}")
 
 
 # --------------------------------------------------------------------------------------------------------------
@@ -337,17 +412,26 @@ class _State:
         self.tools = []          # (name, caps)
         self.names = []
         self.allowed = None
+        self.tools_run = []
 
     def _caps(self, caps):
         from operon_ai.core.types import Capability
         return {Capability(c) for c in caps}
 
-    def _tool_fn(self, name):
+    def _tool_fn(self, name, ver=0, exc=None):
         w = self.world
+        st = self
 
         def fn(*args, **kwargs):
-            r = hash_kws(mix(enc_vals(mix(mix(w.seed, 300), hash_str(name)), list(args)), 99), kwargs)
-            w.log.append("tl:" + hexs(name) + ":" + ";".join(show(a) for a in args) + ":" + show_kws(kwargs))
+            base = mix(mix(w.seed, 300), hash_str(name))
+            if ver:
+                base = mix(base, 1000 + ver)
+            r = hash_kws(mix(enc_vals(base, list(args)), 99), kwargs)
+            w.log.append("tl:" + hexs(name) + (f"@{ver}" if ver else "") + ":" + ";".join(show(a) for a in args)
+                         + ":" + show_kws(kwargs))
+            st.tools_run.append([name, ver])
+            if exc:
+                raise make_exception(exc)
             if r % 8 == 0:
                 raise TracerError("tool")
             return Tr(r, w)
@@ -372,13 +456,67 @@ class _State:
         if op == "tool":
             name = unhexs(t[1])
             caps = [] if t[3] == "-" else t[3].split(",")
+            beh = t[4] if len(t) > 4 else "s0"
+            ver = int(beh[1:].split(":")[0])
+            exc = beh.split(":")[1] if beh[0] == "x" else None
             self.tools = [x for x in self.tools if x[0] != name] + [(name, caps)]
-            self.m.register_function(name, self._tool_fn(name), required_capabilities=self._caps(caps))
+            self.m.register_function(name, self._tool_fn(name, ver, exc), required_capabilities=self._caps(caps))
             return "ok", None
+        if op == "untool":
+            name = unhexs(t[1])
+            self.tools = [x for x in self.tools if x[0] != name]
+            self.m.tools.pop(name, None)
+            return "ok", None
+        if op == "cleartools":
+            self.tools = []
+            self.m.tools.clear()
+            return "ok", None
+        if op == "dg":
+            src = unhexs(t[3])
+            del self.world.log[:]
+            del self.tools_run[:]
+            ex = {}
+            try:
+                with prof:
+                    r = self.m.digest_glucose(src)
+                head = "text:fail" if isinstance(r, str) and r.startswith("Metabolic Failure") else "text:ok"
+            except BaseException as e:  # noqa
+                ex["raised"] = type(e).__name__
+                head = "raised"
+            ros = int(round(self.m._ros_accumulated * 10))
+            ex["prof"] = prof.report()
+            return f"{head} ros={ros} {{{'|'.join(self.world.log)}}}", ex
+        if op == "cdg":
+            src = unhexs(t[2])
+            ex = {}
+            m2 = M.Mitochondria(silent=True)
+            try:
+                r = m2.digest_glucose(src)
+                head = "returned"
+                ex["text_ok"] = not (isinstance(r, str) and r.startswith("Metabolic Failure"))
+            except BaseException as e:  # noqa
+                ex["raised"] = type(e).__name__
+                head = "raised"
+            # the same text through the agent's "calculate ..." prompt (core/agent.py calls digest_glucose)
+            try:
+                from operon_ai.core.agent import BioAgent
+                from operon_ai.core.types import Signal
+                from operon_ai.state.metabolism import ATP_Store
+                ag = BioAgent("a", "Executor", ATP_Store(budget=1000, silent=True))
+                ag.mitochondria.silent = True
+                try:
+                    ag.express(Signal(content="calculate " + src))
+                    ex["agent"] = "returned"
+                except BaseException as e:  # noqa
+                    ex["agent"] = "raised:" + type(e).__name__
+            except BaseException as e:  # noqa
+                ex["agent"] = "n/a:" + type(e).__name__
+            return head, ex
         if op == "met":
             forced, src = t[1], unhexs(t[4])
             pw = None if forced == "auto" else getattr(M.MetabolicPathway, PATHS[forced])
             del self.world.log[:]
+            del self.tools_run[:]
             ex = {}
             try:
                 with prof:
@@ -396,6 +534,7 @@ class _State:
                 ex["error"] = (r.error or "")[:160]
             ros = int(round(self.m._ros_accumulated * 10))
             ex["prof"] = prof.report()
+            ex["tools_run"] = [list(x) for x in self.tools_run]
             return f"{head} ros={ros} {{{'|'.join(self.world.log)}}}", ex
         if op == "pyev":
             src = unhexs(t[1])
@@ -466,7 +605,7 @@ def canon(v):
     if isinstance(v, bool):
         return ["bool", v]
     if isinstance(v, int):
-        return ["int", str(v)]
+        return ["int", hex(v)]
     if isinstance(v, float):
         return ["float", "nan" if math.isnan(v) else v.hex()]
     if isinstance(v, complex):
@@ -726,6 +865,8 @@ def gen_tracer(rng, d, want, clean, logic=False):
         callee = rng.choice(TN + TN + ["zz"])
         args = [G("any") for _ in range(rng.choice([0, 1, 1, 2]))]
         kws = [f"{n}={G('any')}" for n in rng.sample(KWN, rng.choice([0, 0, 1, 2]))]
+        if kws and r() < 0.06:
+            kws.append(f"{kws[0].split('=')[0]}={G('any')}")      # a repeated keyword: the compiler refuses the text
         if not clean and r() < 0.08:
             kws.append(f"**{G('T')}")
         if not clean and r() < 0.05:
@@ -829,6 +970,9 @@ def random_tools(rng):
 def concrete_lit(rng):
     if rng.random() < 0.06:
         return rng.choice(["true", "false"])
+    if rng.random() < 0.10:      # boundary operands: float range, huge ints, non-finite values
+        return rng.choice(["1e308", "-1e308", "1e200", "10**400", "-(10**400)", "5000", "999", "inf", "-inf", "(inf - inf)",
+                           "1e-320", "5e-324", "2.0", "9.5", "0.5", "-8", "(1/3)", "-1.5", "1e16", "2**53 + 1", "-0.0"])
     return rng.choice(["0", "1", "2", "3", "7", "-1", "2.5", "0.0", "True", "False", "'a'", "'ab'", "''", "'true'",
                        "'False x'", "10", "None", "1e308", "0.1", "'1'", "'11'", "-0.0", "5", "[1, 2]", "(3,)"])
 
@@ -856,7 +1000,8 @@ def gen_concrete(rng, d, fn_names, const_names):
         return ("[" + ", ".join(els) + "]") if rng.random() < 0.5 else ("(" + ", ".join(els) + ("," if len(els) == 1 else "") + ")")
     f = rng.choice(fn_names + ["abs", "round", "min", "max", "sum", "len", "int", "float", "bool", "pow"])
     args = [G() for _ in range(rng.randint(0, 2))]
-    kw = rng.choice([[], [], [], ["ndigits=1"], ["base=2"], ["start=1"], ["key=abs"], ["default=0"], ["ndigits=-1"]])
+    kw = rng.choice([[], [], [], ["ndigits=1"], ["base=2"], ["start=1"], ["key=abs"], ["default=0"], ["ndigits=-1"],
+                     ["ndigits=1", "ndigits=2"]] + [[]] * 6)
     return f"{f}({', '.join(args + kw)})"
 
 
@@ -865,6 +1010,17 @@ def cheap(src: str) -> bool:
     try:
         tree = ast.parse(src, mode="eval")
     except Exception:  # noqa
+        return True
+
+    def seqish(n):     # may evaluate to a sequence (anything not plainly numeric)
+        if isinstance(n, ast.Constant):
+            return isinstance(n.value, (str, bytes))
+        if isinstance(n, ast.UnaryOp):
+            return seqish(n.operand)
+        if isinstance(n, ast.BinOp):
+            return isinstance(n.op, (ast.Add, ast.Mult, ast.Mod)) and (seqish(n.left) or seqish(n.right))
+        if isinstance(n, ast.Compare):
+            return False
         return True
 
     def bound(n):      # upper bound on |int value| / length, None = unknown-but-small is not guaranteed
@@ -886,12 +1042,17 @@ def cheap(src: str) -> bool:
         if isinstance(n, ast.BinOp):
             a, b = bound(n.left), bound(n.right)
             if isinstance(n.op, ast.Pow):
-                if b > 8 or a > 1000:
+                r = n.right.operand if isinstance(n.right, ast.UnaryOp) else n.right
+                if isinstance(r, ast.Constant) and isinstance(r.value, float):
+                    return 10 ** 6          # float exponent: float power, always cheap
+                if b > 5000 or max(a, 2).bit_length() * b > 200000:
                     raise OverflowError
                 return max(a, 2) ** b
             if isinstance(n.op, ast.Mult):
-                if a * b > 10 ** 7:
+                if a.bit_length() + b.bit_length() > 200000:
                     raise OverflowError
+                if (seqish(n.left) and 10 ** 4 < b) or (seqish(n.right) and 10 ** 4 < a):
+                    raise OverflowError     # sequence repetition
                 return max(a * b, a, b)
             if isinstance(n.op, ast.Add):
                 return a + b
@@ -951,6 +1112,8 @@ def raw_strings(max_len: int):
         ("TRUE", True), ("tRuE and t0", True), ("t0 AND t1", True), ("untrue", True), ("t0 or t1", True),
         ("t0  or  t1", True), ("t0 or\tt1", True), ("not t0", True), (" not t0", True), ("(not t0)", True),
         ("t0 if not t1 else t2", True), ("t0<t1", True), ("t0 != t1", True), ("t0 >> t1", True),
+        ("t0 if t1 else f0(k=t2, k=t3)", True), ("(lambda: f0(k=t0, k=t1))", True), ("f0(k=t0, k=t1)", True),
+        ("f0(*[f1(k=t0, k=t0) for _ in t1])", True), ("tool1(k=t0, k=t1)", True), ("tool1(f0(k=t0, k=t1))", True),
         ("f0(lambda: t0)", True), ("f0(k=t0 > t1)", True), ("t0 -> t1", True),
         ("'<'", False), ("'true'", False), ("1 + 2", False), ("'a' * 3", False), ("pi", False), ("2 ** 10", False),
         ("__import__('os').system('true')", False), ("().__class__.__bases__", False),
